@@ -593,6 +593,123 @@ def stream_close(I, R, r, n):
 
 def wrire_enc(s): return wire.enc(s)
 
+
+# ------------------------------------------------------------------------------------------
+# classes outside the Lean model: property oracle only (save with the real writer, load with the
+# real reader, register a fresh node of the same class)
+# ------------------------------------------------------------------------------------------
+def _json_value(r, depth=0):
+    k = r.randint(0, 7 if depth < 2 else 4)
+    if k == 0: return r.choice([None, True, False])
+    if k == 1: return r.randint(-1000, 1000)
+    if k == 2: return r.choice([0.5, 1e30, -2.25])
+    if k in (3, 4): return gen_value_str(r)
+    if k == 5: return [_json_value(r, depth + 1) for _ in range(r.randint(0, 3))]
+    return dict((gen_str(r, 3), _json_value(r, depth + 1)) for _ in range(r.randint(0, 3)))
+
+def oracle_classes(I):
+    R_ = I.registry; conf = I.conf
+    class Tmpl(R_.TemplatedString):
+        requiredTemplates = ['foo']
+    class Some(R_.OnlySomeStrings):
+        validStrings = ('A', 'b c', '"q"', "'", '', 'x\\')
+    def fl(r): return r.choice([0.0, -0.0, 0.1, 1.5, -3.25, 1e300, 1e-300, float('inf'), 123456789.123456789, r.uniform(-1e6, 1e6)])
+    def pfl(r): return abs(fl(r)) or 1.0
+    def prob(r): return r.choice([0.0, 1.0, 0.5, r.random()])
+    def rx(r): return r.choice(['', 'm/a.b/i', '/x y/', 'm#a/b#', '/\\d+\\// ', 'm/é/', '/a: b/', "/'/", '/"/', 'm/  /s'])
+    def tmpl(r): return gen_value_str(r) + r.choice(['$foo', '${foo}']) + gen_value_str(r)
+    def some(r): return r.choice(Some.validStrings)
+    def nick(r): return r.choice(['foo', 'a[b]', 'x\\', '`q`', 'n|k', '{x}', 'A-1', '^_^'])
+    def chan(r): return r.choice(['#c', '#a,key', '&x', '#é', '#"', "#'", '#x\\', '#a:b', '#c,k,'[:6]])
+    def chans(r): return [r.choice(['#c', '#d,key', '&x', '#E', '#"']) for _ in range(r.randint(0, 3))]
+    def pchars(r): return ''.join(r.choice('`~!@#$%^&*()_-+=[{}]\\|\'";:,<.>/?') for _ in range(r.randint(0, 4)))
+    def quotes(r): return ''.join(r.choice('"`\'') for _ in range(r.randint(0, 3)))
+    def brackets(r): return r.choice(conf.ValidBrackets.validStrings)
+    def banmask(r): return [r.choice(['exact', 'nick', 'user', 'host']) for _ in range(r.randint(1, 3))]
+    def nets(r): return [r.choice(['libera', 'oftc', 'Net2']) for _ in range(r.randint(0, 3))]
+    def ips(r): return [r.choice(['127.0.0.1', '::1', '10.0.0.7']) for _ in range(r.randint(0, 3))]
+    def hostmask(r): return r.choice(['a!b@c', '*!*@*.example.org', 'n!~u@h', 'x!y@"'])
+    out = [
+        ('Float', lambda: R_.Float(0.0, 'h'), fl, 'value'),
+        ('PositiveFloat', lambda: R_.PositiveFloat(1.0, 'h'), pfl, 'value'),
+        ('Probability', lambda: R_.Probability(0.5, 'h'), prob, 'value'),
+        ('Regexp', lambda: R_.Regexp('', 'h'), rx, 'text'),
+        ('Json', lambda: R_.Json({}, 'h'), _json_value, 'value'),
+        ('TemplatedString', lambda: Tmpl('$foo', 'h'), tmpl, 'value'),
+        ('OnlySomeStrings', lambda: Some('A', 'h'), some, 'value'),
+        ('conf.ValidNick', lambda: conf.ValidNick('x', 'h'), nick, 'value'),
+        ('conf.ValidChannel', lambda: conf.ValidChannel('#x', 'h'), chan, 'value'),
+        ('conf.SpaceSeparatedSetOfChannels', lambda: conf.SpaceSeparatedSetOfChannels([], 'h'), chans, 'value'),
+        ('conf.ValidPrefixChars', lambda: conf.ValidPrefixChars('', 'h'), pchars, 'value'),
+        ('conf.ValidQuotes', lambda: conf.ValidQuotes('"', 'h'), quotes, 'value'),
+        ('conf.ValidBrackets', lambda: conf.ValidBrackets('[]', 'h'), brackets, 'value'),
+        ('conf.Banmask', lambda: conf.Banmask(['host'], 'h'), banmask, 'value'),
+        ('conf.Networks', lambda: conf.Networks([], 'h'), nets, 'value'),
+        ('conf.ListOfIPs', lambda: conf.ListOfIPs([], 'h'), ips, 'value'),
+        ('conf.ValidHostmask', lambda: conf.ValidHostmask('a!b@c', 'h'), hostmask, 'value'),
+    ]
+    return out
+
+def observe(node):
+    """what the property compares: the value as users of the variable see it"""
+    v = node.value
+    if hasattr(v, 'pattern'):
+        return ('re', v.pattern, v.flags)
+    if isinstance(v, tuple) and len(v) == 2 and hasattr(v[1], 'pattern'):
+        return ('re', v[0], v[1].pattern, v[1].flags)
+    if isinstance(v, float):
+        return repr(v)
+    if isinstance(v, (set, frozenset)) or type(v).__name__ == 'IrcSet':
+        return sorted(v)
+    if isinstance(v, list):
+        return list(v)
+    return v
+
+def stream_oracle_only(I, R, r, n):
+    reg = I.registry
+    OC = oracle_classes(I)
+    for _ in range(n):
+        name, mk, gen, how = r.choice(OC)
+        v = gen(r)
+        I.reset_cache()
+        root = reg.Group(); root.setName('vt')
+        try:
+            node = mk(); root.register('v', node)
+            if how == 'text': node.set(v)
+            else: node.setValue(v)
+        except (reg.InvalidRegistryValue, ValueError):
+            continue
+        try:
+            json.dumps(v)
+        except (TypeError, ValueError):
+            continue
+        before = observe(node)
+        I.exceptions[:] = []
+        reg.close(root, I.fn)
+        text = open(I.fn, encoding='utf-8').read()
+        outcome = None
+        try:
+            reg.open_registry(I.fn, clear=True)
+            root2 = reg.Group(); root2.setName('vt')
+            node2 = mk(); root2.register('v', node2)
+            after = observe(node2)
+            if after != before:
+                outcome = 'reloaded as %r' % (after,)
+            elif 'vt.v' not in reg._cache:
+                outcome = 'not written (%r)' % (I.exceptions[:1],)
+        except reg.InvalidRegistryFile as e:
+            outcome = 'the file does not load: %s' % e
+        except reg.InvalidRegistryValue as e:
+            outcome = 'the stored text is rejected at reload: %s' % e
+        except Exception as e:
+            outcome = 'reload raised %s: %s' % (type(e).__name__, e)
+        fid = None
+        if name == 'conf.SpaceSeparatedSetOfChannels' and False:
+            fid = None
+        R.add_oracle(Case({'op': 'oracle_only', 'class': name, 'value': v, 'how': how}, oracle_ok=(outcome is None), finding=fid,
+                          oracle_msg='' if outcome is None else '%s value %r (seen as %r) saved as %r: %s' % (name, v, before, file_value_lines(text), outcome),
+                          kind='oracle-only', tags=('oracle-only', 'oo-' + name)))
+
 # ------------------------------------------------------------------------------------------
 # value tree histories
 # ------------------------------------------------------------------------------------------
@@ -987,6 +1104,7 @@ def explore(ctx, scale, seed_stream='c15'):
     stream_files(I, R, r, 1500 * scale)
     stream_names(I, R, r, 1500 * scale)
     stream_close(I, R, r, 400 * scale)
+    stream_oracle_only(I, R, r, 1500 * scale)
     stream_tree(I, R, r, 250 * scale)
     return I, R
 
